@@ -22,6 +22,8 @@ pub use crate::internal::column::{Column, ColumnBuilder, ColumnType};
 pub use crate::internal::expr::Expr;
 pub use crate::internal::language::Language;
 pub use crate::internal::package::{Package, PackageType, Tables};
+#[cfg(msi_verif)]
+pub use crate::internal::package::VerifSnapshot;
 pub use crate::internal::query::{Delete, Insert, Select, Update};
 pub use crate::internal::stream::{StreamReader, StreamWriter, Streams};
 pub use crate::internal::summary::SummaryInfo;
